@@ -348,6 +348,20 @@ def run_case(case):
                 pass
             except BaseException as exc:  # noqa: BLE001
                 viol.append(V('unknown-class-error', 'unknown-class-error:%s' % type(exc).__name__, 'unknown class name raised %r instead of ValueError' % (exc,)))
+            # a class that cannot be found under its own name (here: a class made at run time that bears the name of a registered
+            # one) is unknown too: saving or loading it is a ValueError, never an object of the other class
+            shadow = type(cls.__name__, (cls,), {'__module__': cls.__module__})
+            obs['shadow_class_probes'] = 1
+            try:
+                res = Savable.load(shadow(shape['members']).save())
+                if type(res) is not shadow:
+                    viol.append(V('wrong-class-loaded', 'wrong-class-loaded:shadow', 'an object of a class that is not importable under its name %s was saved '
+                                  'and came back as an instance of %r (the registered class of that name)' % (cls.__name__, type(res))))
+            except ValueError:
+                pass
+            except BaseException as exc:  # noqa: BLE001
+                viol.append(V('unknown-class-error', 'unknown-class-error:shadow:%s' % type(exc).__name__, 'a class not importable under its name raised %r '
+                              'instead of ValueError' % (exc,)))
             return _res(case, viol, obs, kinds)
         if mode == 'ctxreuse':
             # one caller-owned context (without a loader) reused for several loads while the global loader changes:
